@@ -5,6 +5,7 @@ pub mod c02;
 pub mod c03;
 pub mod c04;
 pub mod c06;
+pub mod c07;
 pub mod c08;
 pub mod c09;
 pub mod c10;
@@ -17,5 +18,5 @@ pub mod c19;
 pub mod c20;
 
 pub fn all() -> Vec<Spec> {
-    vec![c01::spec(), c02::spec(), c03::spec(), c04::spec(), c06::spec(), c08::spec(), c09::spec(), c10::spec(), c11::spec(), c12::spec(), c13::spec(), c14::spec(), c18::spec(), c19::spec(), c20::spec()]
+    vec![c01::spec(), c02::spec(), c03::spec(), c04::spec(), c06::spec(), c07::spec(), c08::spec(), c09::spec(), c10::spec(), c11::spec(), c12::spec(), c13::spec(), c14::spec(), c18::spec(), c19::spec(), c20::spec()]
 }
